@@ -11,7 +11,7 @@ CLAIM = {
           "tag, data size = length of the records, correct header CRC; every definition record as long as its counts announce; every data record preceded by a live definition "
           "for its local number (normal and compressed-timestamp headers) whose sizes add up to the record's length, also after evictions from the LRU; records covering exactly "
           "the data size; file CRC over the sequence from its first byte. Also: running size/CRC, values written back equal the wire. Hypotheses: output is a byte string and "
-          "shorter than 4 GiB. Refuted for 12-byte headers (records-only CRC; known finding legacy_header_file_crc, witness in Props/C02.v). Chained files (C02_chain_wf): the output for a list of files is exactly that many well-formed sequences, nothing between and nothing after them. "
+          "shorter than 4 GiB. The stream encoder asked to complete a sequence no message was written for must refuse and leave the destination alone (model: stream_sequence c s [] = Err; decided per run by WriteMessage/SequenceCompleted histories with such calls before, between and after sequences on every destination kind and buffer size; this found the defect repaired by fix 2690f88). Refuted for 12-byte headers (records-only CRC; known finding legacy_header_file_crc, witness in Props/C02.v). Chained files (C02_chain_wf): the output for a list of files is exactly that many well-formed sequences, nothing between and nothing after them. "
           "The agreement of the Go encoder with the model is decided on every run (byte-exact correspondence, wf_stream_b on the Go bytes, decoder.CheckIntegrity, and the "
           "writer-kind oracle of C09 for destinations other than a plain writer).",
   "note": NOTE_COMMON + " Model/Wire.v is written from the protocol text and shares no definition with Encoder.v/Decoder.v."}
@@ -40,7 +40,7 @@ def run(ctx):
     enc, wf = h.lines.get("ENC", []), h.lines.get("WF", [])
     ctx.count(len(enc) + len(wf), wf)
     found = False
-    for f in [f for f in h.fails if f.get("kind") in ("check-integrity", "decode-of-encoded")][:3]:
+    for f in [f for f in h.fails if f.get("kind") in ("check-integrity", "decode-of-encoded", "stream-completion-without-messages", "decode-of-stream-encoded")][:3]:
         ctx.violation({"source": "direct Go oracle: decoder.CheckIntegrity / decode of the encoder's output", "failing": f})
         found = True
     # the same holds whatever the destination is: every writer kind / buffer size / batch or stream must leave the bytes the plain
